@@ -2,10 +2,14 @@
 
    FTrace: the system calls the real fsDb.Put made on the store directory (strace of a child
            process), abstracted to fsops; checked to be exactly the model's operation list.
-   FCrash: one (previous record, new record) pair of real persisted session states; every
-           sampled crash state of the model's operation list was materialised in a scratch
-           directory, and the real Persister.Load, the real Dump and a fresh engine's first
-           Exec+Flush+Finish were run on it. *)
+   FCrash: one (previous record, new record) pair of real persisted session states; the REAL Put
+           of the new record onto the store was traced (strace), and every sampled crash state
+           of the OBSERVED operation list was materialised in a scratch directory, where the real
+           Persister.Load, the real Dump and a fresh engine's first Exec+Flush+Finish were run.
+           Mismatch = the observed list is not the model's put_ops, or a materialised state is
+           not what apply_op says; violation = the C12 monitor fails on an observed state — so a
+           change of Put that is not crash-atomic yields a concrete failing crash state, not
+           only a mismatch. *)
 From Vise Require Import Bytes Errors Consts FsCrash CorrBase.
 Local Open Scope N_scope.
 
@@ -18,6 +22,9 @@ Definition fsop_eqb (a b : fsop) : bool :=
   | Rename x p, Rename y q => bytes_eqb x y && bytes_eqb p q
   | Remove x, Remove y => bytes_eqb x y
   | OpenTrunc x, OpenTrunc y => bytes_eqb x y
+  | OpenWrite x, OpenWrite y => bytes_eqb x y
+  | OpenCreate x, OpenCreate y => bytes_eqb x y
+  | WriteAt x o c, WriteAt y q d => bytes_eqb x y && (o =? q) && bytes_eqb c d
   | _, _ => false
   end.
 
@@ -37,10 +44,22 @@ Record crashobs := mkCrashObs {
   co_dump : list bytes               (* keys listed by the real Dump(DATATYPE_STATE, "")         *)
 }.
 
+(* an observed operation whose payload is given by reference *)
+Inductive eop : Type :=
+| EOp (o : fsop)
+| EWrite (t : bytes) (c : cref)
+| EWriteAt (t : bytes) (off : N) (c : cref).
+
+(* FCrash: evs = the system calls the REAL Put made for this very save (store fs0, value =
+   blob newi), abstracted, with their success flag; for the self-test (oldlist) the pre-repair
+   list supplied by the driver.  killed = the child was killed by an injected SIGKILL on entry to
+   a system call (evs is then what it did before dying, the fatal call last and failed).
+   The crash states (obs) are those of the OBSERVED operations, whatever they are. *)
 Inductive fcase : Type :=
 | FTrace (kind : N) (p : bytes) (value : bytes) (evs : list (fsop * bool))
 | FCrash (oldlist : bool) (blobs : list bytes) (fs0 : list (bytes * N))
-         (p alt tmp : bytes) (newi : N) (obs : list crashobs).
+         (p alt tmp : bytes) (newi : N) (evs : list (eop * bool)) (killed : bool)
+         (obs : list crashobs).
 
 (* ---- traces ------------------------------------------------------------------------------- *)
 
@@ -76,6 +95,28 @@ Definition resolve (blobs : list bytes) (c : cref) : bytes :=
   | CRef i => blob blobs i
   | CPre i k => take k (blob blobs i)
   | CRaw b => b
+  end.
+Definition resolve_op (blobs : list bytes) (e : eop) : fsop :=
+  match e with
+  | EOp o => o
+  | EWrite t c => Write t (resolve blobs c)
+  | EWriteAt t off c => WriteAt t off (resolve blobs c)
+  end.
+(* the operations that took effect *)
+Definition observed_ops (blobs : list bytes) (evs : list (eop * bool)) : list fsop :=
+  map (fun e => resolve_op blobs (fst e)) (filter (fun e => snd e) evs).
+Fixpoint ops_prefix (a b : list fsop) : bool :=
+  match a, b with
+  | [], _ => true
+  | x :: a', y :: b' => fsop_eqb x y && ops_prefix a' b'
+  | _ :: _, [] => false
+  end.
+(* no call failed; when killed, only the last (fatal) one *)
+Fixpoint flags_ok (killed : bool) (evs : list (eop * bool)) : bool :=
+  match evs with
+  | [] => true
+  | [e] => snd e || killed
+  | e :: evs' => snd e && flags_ok killed evs'
   end.
 Definition mk_fs (blobs : list bytes) (fs0 : list (bytes * N)) : list (bytes * bytes) :=
   map (fun e => (fst e, blob blobs (snd e))) fs0.
@@ -113,14 +154,20 @@ Definition obs_corr (blobs : list bytes) (fs : list (bytes * bytes)) (ops : list
      end
   && list_eqb bytes_eqb (dump_keys DATATYPE_STATE [] [] (map fst (asort fs'))) (co_dump o).
 
+(* the observed operations are the model's (killed: a prefix of them), and every crash state
+   derived from the observed operations is what was found *)
 Definition case_corr_ok (c : fcase) : bool :=
   match c with
   | FTrace kind p value evs => trace_ok kind p value evs
-  | FCrash oldlist blobs fs0 p alt tmp newi obs =>
+  | FCrash oldlist blobs fs0 p alt tmp newi evs killed obs =>
     let fs := mk_fs blobs fs0 in
     let new := blob blobs newi in
-    let ops := case_ops oldlist tmp p new in
-    (1 <=? len obs) && forallb (obs_corr blobs fs ops p alt new) obs
+    let ops := observed_ops blobs evs in
+    let model := case_ops oldlist tmp p new in
+    flags_ok killed evs
+    && (if killed then ops_prefix ops model else list_eqb fsop_eqb ops model)
+    && (oldlist || (is_tmp_name tmp && negb (ahas tmp fs)))
+    && (1 <=? len obs) && forallb (obs_corr blobs fs ops p alt new) obs
   end.
 
 (* ---- the C12 monitor, on the observed behaviour only ------------------------------------- *)
@@ -146,7 +193,7 @@ Definition c12_obs_ok (blobs : list bytes) (fs : list (bytes * bytes)) (p new : 
 Definition c12_case_ok (c : fcase) : bool :=
   match c with
   | FTrace _ _ _ _ => true
-  | FCrash _ blobs fs0 p _ _ newi obs =>
+  | FCrash _ blobs fs0 p _ _ newi _ _ obs =>
     forallb (c12_obs_ok blobs (mk_fs blobs fs0) p (blob blobs newi)) obs
   end.
 
@@ -163,15 +210,15 @@ Definition fscrash_violations (cs : list fcase) : list (N * N) :=
    If the self-test fails, one extra (out-of-range) mismatch index is reported. *)
 Definition selftest_case_ok (c : fcase) : bool :=
   match c with
-  | FCrash true _ _ _ _ _ _ _ => case_corr_ok c && negb (c12_case_ok c)
-  | FCrash false _ _ _ _ _ _ _ => false
+  | FCrash true _ _ _ _ _ _ _ _ _ => case_corr_ok c && negb (c12_case_ok c)
+  | FCrash false _ _ _ _ _ _ _ _ _ => false
   | FTrace kind p value evs =>
     negb (trace_ok kind p value evs)
     && list_eqb fsop_eqb (map fst evs) (put_ops_old p value) && forallb (fun e => snd e) evs
   end.
 Definition selftest_ok (st : list fcase) : bool :=
   existsb (fun c => match c with FTrace _ _ _ _ => true | _ => false end) st
-  && existsb (fun c => match c with FCrash _ _ _ _ _ _ _ _ => true | _ => false end) st
+  && existsb (fun c => match c with FCrash _ _ _ _ _ _ _ _ _ _ => true | _ => false end) st
   && forallb selftest_case_ok st.
 Definition fscrash_mismatches_st (st cs : list fcase) : list N :=
   fscrash_mismatches cs ++ (if selftest_ok st then [] else [len cs]).
